@@ -557,6 +557,10 @@ def _pad(m, o):
     x = m.regs[o['r']]
     meth, width = o['m'], o['width']
     fill = o.get('fill')
+    if 'fill_src' in o:
+        # the fill character given as an AnsiStr (a str): its TEXT is the fill character
+        fill_obj = m.regs[o['fill_src']]
+        fill = fill_obj if type(fill_obj) is str else fill_obj.base_str
     ext = o.get('extend', True)
     ip = bool(o.get('inplace')) and _is_S(m, o['r'])
     t = x.base_str
@@ -569,11 +573,11 @@ def _pad(m, o):
         f = ' ' if fill is None else fill
         fillc = f
         if S:
-            args = [width] + ([] if fill is None else [fill])
+            args = [width] + ([] if fill is None else [fill_obj if 'fill_src' in o else fill])
             call = lambda: getattr(x, meth)(*args, inplace=ip, extend_formatting=ext)
         elif 'extend' in o:
             # the shared method takes extend_formatting on AnsiStr as on AnsiString (C13: same operation, same arguments)
-            args = [width] + ([] if fill is None else [fill])
+            args = [width] + ([] if fill is None else [fill_obj if 'fill_src' in o else fill])
             call = lambda: getattr(x, meth)(*args, extend_formatting=ext)
         else:
             ext = True
